@@ -1,21 +1,12 @@
 package rules
 
-// Engine E (DESIGN.md §2.3): a 64-lane bit-vector abstract domain and an
-// abstract interpreter of Go syntax trees over it. Nothing here executes the
-// library: expressions of /repo are folded lane by lane with the constants the
-// type checker computed; in-package callees are inlined (bounded depth) by
-// interpreting their statements (return, guard-if, constant switch, simple
-// assignments). Every top-level identifier is prefixed c10.
+// Engine E (DESIGN.md §2.3), part 1: the 64-lane bit-vector abstract domain.
+// The abstract interpreter of Go syntax trees over it lives in c10_interp.go.
+// Every top-level identifier is prefixed c10.
 
 import (
 	"fmt"
-	"go/ast"
-	"go/constant"
-	"go/token"
-	"go/types"
 	"strings"
-
-	"golang.org/x/tools/go/packages"
 )
 
 // ---------------------------------------------------------------------------
@@ -33,9 +24,10 @@ const (
 const (
 	c10SrcRef uint8 = 0
 	c10SrcVer uint8 = 1
+	c10SrcRaw uint8 = 2 // an arbitrary 64-bit pattern (K1 probes which lanes a decoder keeps)
 )
 
-var c10SrcName = []string{"ref", "ver"}
+var c10SrcName = []string{"ref", "ver", "raw"}
 
 type c10Lane struct {
 	K   c10LK
@@ -184,6 +176,11 @@ func (v c10Vec) not() c10Vec {
 // add: below the lowest lane where both operands may be 1 no carry can arise, so the sum equals
 // the bitwise or there; from that lane upwards the result is unknown.
 func (v c10Vec) add(w c10Vec) c10Vec {
+	if a, ok := v.constant(); ok {
+		if b, ok := w.constant(); ok {
+			return c10ConstVec(a+b, v.W, v.Signed).truncate()
+		}
+	}
 	out := c10Vec{W: v.W, Signed: v.Signed}
 	carry := false
 	for i := 0; i < 64; i++ {
@@ -221,6 +218,42 @@ func (v c10Vec) shr(n int) c10Vec {
 		}
 	}
 	return out.norm()
+}
+
+// truncate re-reads the low W lanes of a freshly computed 64-bit pattern as a W-bit value.
+func (v c10Vec) truncate() c10Vec { return v.norm() }
+
+// sub is exact for constants and for subtracting zero; otherwise unknown.
+func (v c10Vec) sub(w c10Vec) (c10Vec, bool) {
+	if b, ok := w.constant(); ok {
+		if b == 0 {
+			return v, true
+		}
+		if a, ok := v.constant(); ok {
+			return c10ConstVec(a-b, v.W, v.Signed).truncate(), true
+		}
+	}
+	return c10Vec{}, false
+}
+
+// signedConst returns the constant value of v read as a signed 64-bit integer (the 64-lane form is
+// already sign- or zero-extended according to the Go type).
+func (v c10Vec) signedConst() (int64, bool) {
+	u, ok := v.constant()
+	return int64(u), ok
+}
+
+// nonNegative reports whether the sign lane is provably 0.
+func (v c10Vec) nonNegative() bool { return v.L[63].K == c10Zero }
+
+// highLane returns the highest lane that is not constant 0 (-1 when the value is constant 0).
+func (v c10Vec) highLane() int {
+	for i := 63; i >= 0; i-- {
+		if v.L[i].K != c10Zero {
+			return i
+		}
+	}
+	return -1
 }
 
 // convert re-interprets the value in an integer type of width w: truncation keeps the low lanes,
@@ -372,668 +405,4 @@ func c10LaneStr(l c10Lane) string {
 		return fmt.Sprintf("%s[%d]", c10SrcName[l.Src], l.Bit)
 	}
 	return "⊤"
-}
-
-// ---------------------------------------------------------------------------
-// abstract values of expressions
-
-type c10VK int
-
-const (
-	c10VInt    c10VK = iota // integer: V
-	c10VStr                 // constant string: S
-	c10VBool                // Tri (1 true, 0 false, -1 unknown; then Cmp describes the test)
-	c10VFmt                 // fmt.Sprintf(S, Args...)
-	c10VNil                 // the nil literal / a zero pointer
-	c10VErr                 // an error value that is provably non-nil (fmt.Errorf, errors.New)
-	c10VStruct              // receiver struct with bound fields
-	c10VTuple               // multi-value call result: Args
-	c10VOpaque              // anything else; Why says what stopped the evaluation
-)
-
-type c10Val struct {
-	K      c10VK
-	V      c10Vec
-	S      string
-	Tri    int
-	Cmp    *c10Cmp
-	Args   []c10Val
-	Fields map[*types.Var]c10Val
-	Why    string
-}
-
-// c10Cmp is an undecided comparison L Op R (Neg: negated).
-type c10Cmp struct {
-	Op   token.Token
-	L, R c10Val
-	Neg  bool
-}
-
-func c10IntVal(v c10Vec) c10Val    { return c10Val{K: c10VInt, V: v} }
-func c10StrVal(s string) c10Val    { return c10Val{K: c10VStr, S: s} }
-func c10BoolVal(b bool) c10Val     { return c10Val{K: c10VBool, Tri: map[bool]int{true: 1, false: 0}[b]} }
-func c10OpaqueVal(w string) c10Val { return c10Val{K: c10VOpaque, Why: w} }
-
-func (v c10Val) String() string {
-	switch v.K {
-	case c10VInt:
-		return v.V.String()
-	case c10VStr:
-		return fmt.Sprintf("%q", v.S)
-	case c10VBool:
-		return map[int]string{1: "true", 0: "false", -1: "undecided"}[v.Tri]
-	case c10VFmt:
-		var a []string
-		for _, x := range v.Args {
-			a = append(a, x.String())
-		}
-		return fmt.Sprintf("Sprintf(%q, %s)", v.S, strings.Join(a, ", "))
-	case c10VNil:
-		return "nil"
-	case c10VErr:
-		return "non-nil error"
-	case c10VStruct:
-		return "struct"
-	case c10VTuple:
-		var a []string
-		for _, x := range v.Args {
-			a = append(a, x.String())
-		}
-		return "(" + strings.Join(a, ", ") + ")"
-	}
-	return "opaque(" + v.Why + ")"
-}
-
-type c10Env map[types.Object]c10Val
-
-func (e c10Env) with(o types.Object, v c10Val) c10Env {
-	n := make(c10Env, len(e)+1)
-	for k, x := range e {
-		n[k] = x
-	}
-	n[o] = v
-	return n
-}
-
-// c10PathCond is an undecided branch condition assumed on a path.
-type c10PathCond struct {
-	Cond  c10Val
-	Taken bool
-}
-
-// c10Outcome is one way an interpreted function can end.
-type c10Outcome struct {
-	Res         []c10Val
-	Panic       bool
-	Conds       []c10PathCond
-	Unsupported string // a statement/shape outside the interpreter's enumerated forms
-	Pos         token.Pos
-}
-
-type c10State struct {
-	env   c10Env
-	conds []c10PathCond
-}
-
-const c10MaxDepth = 8
-
-// c10Eval interprets expressions and function bodies of one package.
-type c10Eval struct {
-	pk      *packages.Package
-	info    *types.Info
-	decls   map[*types.Func]*ast.FuncDecl
-	hook    func(e ast.Expr) (c10Val, bool) // resolves identifiers/index expressions of the depth-0 function
-	Inlined int                             // number of callee bodies interpreted
-	Exprs   int                             // number of expression nodes folded
-}
-
-func c10NewEval(pk *packages.Package) *c10Eval {
-	ev := &c10Eval{pk: pk, info: pk.TypesInfo, decls: map[*types.Func]*ast.FuncDecl{}}
-	for _, f := range pk.Syntax {
-		for _, d := range f.Decls {
-			if fd, ok := d.(*ast.FuncDecl); ok && fd.Body != nil {
-				if obj, _ := pk.TypesInfo.Defs[fd.Name].(*types.Func); obj != nil {
-					ev.decls[obj] = fd
-				}
-			}
-		}
-	}
-	return ev
-}
-
-// intType returns width and signedness of an integer type under the loaded build configuration
-// (types.Sizes of the package: int is 32 bits when GOARCH=386).
-func (ev *c10Eval) intType(t types.Type) (int, bool, bool) {
-	if t == nil {
-		return 0, false, false
-	}
-	b, ok := t.Underlying().(*types.Basic)
-	if !ok || b.Info()&types.IsInteger == 0 {
-		return 0, false, false
-	}
-	if b.Info()&types.IsUntyped != 0 {
-		return 64, true, true
-	}
-	w := 64
-	if ev.pk.TypesSizes != nil {
-		w = int(ev.pk.TypesSizes.Sizeof(t)) * 8
-	}
-	return w, b.Info()&types.IsUnsigned == 0, true
-}
-
-func (ev *c10Eval) isString(t types.Type) bool {
-	if t == nil {
-		return false
-	}
-	b, ok := t.Underlying().(*types.Basic)
-	return ok && b.Info()&types.IsString != 0
-}
-
-// unknownOf is the value of an expression nothing is known about.
-func (ev *c10Eval) unknownOf(t types.Type, why string) c10Val {
-	if w, s, ok := ev.intType(t); ok {
-		v := c10IntVal(c10TopVec(w, s))
-		v.Why = why
-		return v
-	}
-	return c10OpaqueVal(why)
-}
-
-func (ev *c10Eval) zeroOf(t types.Type) c10Val {
-	if w, s, ok := ev.intType(t); ok {
-		return c10IntVal(c10ConstVec(0, w, s))
-	}
-	if ev.isString(t) {
-		return c10StrVal("")
-	}
-	switch t.Underlying().(type) {
-	case *types.Pointer, *types.Slice, *types.Map, *types.Interface, *types.Signature, *types.Chan:
-		return c10Val{K: c10VNil}
-	}
-	return c10OpaqueVal("zero value of " + t.String())
-}
-
-func (ev *c10Eval) constVal(tv types.TypeAndValue) (c10Val, bool) {
-	if tv.Value == nil {
-		return c10Val{}, false
-	}
-	switch tv.Value.Kind() {
-	case constant.String:
-		return c10StrVal(constant.StringVal(tv.Value)), true
-	case constant.Bool:
-		return c10BoolVal(constant.BoolVal(tv.Value)), true
-	case constant.Int:
-		w, s, ok := ev.intType(tv.Type)
-		if !ok {
-			w, s = 64, true
-		}
-		if u, exact := constant.Uint64Val(tv.Value); exact {
-			return c10IntVal(c10ConstVec(u, w, s)), true
-		}
-		if i, exact := constant.Int64Val(tv.Value); exact {
-			return c10IntVal(c10ConstVec(uint64(i), w, s)), true
-		}
-	}
-	return c10Val{}, false
-}
-
-// expr folds an expression. depth 0 is the function the rule started from.
-func (ev *c10Eval) expr(e ast.Expr, env c10Env, depth int) c10Val {
-	e = ast.Unparen(e)
-	ev.Exprs++
-	tv := ev.info.Types[e]
-	if v, ok := ev.constVal(tv); ok {
-		return v
-	}
-	switch x := e.(type) {
-	case *ast.Ident:
-		obj := ev.info.Uses[x]
-		if obj == nil {
-			obj = ev.info.Defs[x]
-		}
-		if _, isNil := obj.(*types.Nil); isNil {
-			return c10Val{K: c10VNil}
-		}
-		if v, ok := env[obj]; ok {
-			return v
-		}
-		if depth == 0 && ev.hook != nil {
-			if v, ok := ev.hook(x); ok {
-				return v
-			}
-		}
-		return ev.unknownOf(tv.Type, "value of `"+x.Name+"` is not tracked")
-	case *ast.BinaryExpr:
-		return ev.binary(x, env, depth)
-	case *ast.UnaryExpr:
-		a := ev.expr(x.X, env, depth)
-		switch x.Op {
-		case token.NOT:
-			if a.K == c10VBool {
-				return c10NotVal(a)
-			}
-		case token.XOR:
-			if a.K == c10VInt {
-				return c10IntVal(a.V.not())
-			}
-		case token.ADD:
-			return a
-		}
-		return ev.unknownOf(tv.Type, "unary "+x.Op.String())
-	case *ast.StarExpr:
-		return ev.expr(x.X, env, depth)
-	case *ast.SelectorExpr:
-		if sel := ev.info.Selections[x]; sel != nil && sel.Kind() == types.FieldVal {
-			base := ev.expr(x.X, env, depth)
-			if base.K == c10VStruct && len(sel.Index()) == 1 {
-				if v, ok := base.Fields[sel.Obj().(*types.Var)]; ok {
-					return v
-				}
-			}
-			return ev.unknownOf(tv.Type, "field "+sel.Obj().Name()+" is not an input of the id")
-		}
-		return ev.unknownOf(tv.Type, "selector")
-	case *ast.IndexExpr:
-		if depth == 0 && ev.hook != nil {
-			if v, ok := ev.hook(x); ok {
-				return v
-			}
-		}
-		return ev.unknownOf(tv.Type, "indexed value")
-	case *ast.CallExpr:
-		return ev.callExpr(x, env, depth)
-	}
-	return ev.unknownOf(tv.Type, fmt.Sprintf("%T", e))
-}
-
-func c10NotVal(a c10Val) c10Val {
-	out := a
-	switch a.Tri {
-	case 1:
-		out.Tri = 0
-	case 0:
-		out.Tri = 1
-	default:
-		if a.Cmp != nil {
-			c := *a.Cmp
-			c.Neg = !c.Neg
-			out.Cmp = &c
-		}
-	}
-	return out
-}
-
-func (ev *c10Eval) binary(x *ast.BinaryExpr, env c10Env, depth int) c10Val {
-	tv := ev.info.Types[x]
-	switch x.Op {
-	case token.LAND, token.LOR:
-		a := ev.expr(x.X, env, depth)
-		if a.K == c10VBool && a.Tri != -1 {
-			if (x.Op == token.LAND) == (a.Tri == 0) {
-				return a // short circuit
-			}
-			return ev.expr(x.Y, env, depth)
-		}
-		b := ev.expr(x.Y, env, depth)
-		if b.K == c10VBool && b.Tri != -1 && (x.Op == token.LAND) == (b.Tri == 0) {
-			return b
-		}
-		return c10Val{K: c10VBool, Tri: -1}
-	}
-	a := ev.expr(x.X, env, depth)
-	b := ev.expr(x.Y, env, depth)
-	switch x.Op {
-	case token.EQL, token.NEQ:
-		tri := -1
-		switch {
-		case a.K == c10VInt && b.K == c10VInt:
-			tri = c10VecEq(a.V, b.V)
-		case a.K == c10VStr && b.K == c10VStr:
-			tri = map[bool]int{true: 1, false: 0}[a.S == b.S]
-		case a.K == c10VNil && b.K == c10VNil:
-			tri = 1
-		case a.K == c10VErr && b.K == c10VNil, a.K == c10VNil && b.K == c10VErr:
-			tri = 0
-		}
-		out := c10Val{K: c10VBool, Tri: tri}
-		if tri == -1 {
-			out.Cmp = &c10Cmp{Op: token.EQL, L: a, R: b, Neg: x.Op == token.NEQ}
-		} else if x.Op == token.NEQ {
-			out.Tri = 1 - tri
-		}
-		return out
-	case token.LSS, token.LEQ, token.GTR, token.GEQ:
-		if a.K == c10VInt && b.K == c10VInt {
-			if ua, ok := a.V.constant(); ok {
-				if ub, ok := b.V.constant(); ok && a.V.Signed {
-					ia, ib := int64(ua), int64(ub)
-					return c10BoolVal(map[token.Token]bool{token.LSS: ia < ib, token.LEQ: ia <= ib, token.GTR: ia > ib, token.GEQ: ia >= ib}[x.Op])
-				}
-			}
-		}
-		return c10Val{K: c10VBool, Tri: -1, Cmp: &c10Cmp{Op: x.Op, L: a, R: b}}
-	}
-	if a.K != c10VInt || b.K != c10VInt {
-		return ev.unknownOf(tv.Type, "operand of "+x.Op.String()+" is not an integer the domain tracks")
-	}
-	switch x.Op {
-	case token.OR:
-		return c10IntVal(a.V.or(b.V))
-	case token.AND:
-		return c10IntVal(a.V.and(b.V))
-	case token.XOR:
-		return c10IntVal(a.V.xor(b.V))
-	case token.AND_NOT:
-		return c10IntVal(a.V.andNot(b.V))
-	case token.ADD:
-		return c10IntVal(a.V.add(b.V))
-	case token.SUB:
-		if u, ok := b.V.constant(); ok && u == 0 {
-			return a
-		}
-	case token.SHL, token.SHR:
-		if u, ok := b.V.constant(); ok && u < 64 {
-			if x.Op == token.SHL {
-				return c10IntVal(a.V.shl(int(u)))
-			}
-			return c10IntVal(a.V.shr(int(u)))
-		}
-	}
-	return ev.unknownOf(tv.Type, "operator "+x.Op.String()+" has no transfer function for these operands")
-}
-
-func (ev *c10Eval) callExpr(call *ast.CallExpr, env c10Env, depth int) c10Val {
-	tv := ev.info.Types[call]
-	// conversion
-	if ftv, ok := ev.info.Types[call.Fun]; ok && ftv.IsType() && len(call.Args) == 1 {
-		a := ev.expr(call.Args[0], env, depth)
-		if w, s, ok := ev.intType(ftv.Type); ok {
-			if a.K == c10VInt {
-				return c10IntVal(a.V.convert(w, s))
-			}
-			return ev.unknownOf(ftv.Type, "conversion of a non-integer")
-		}
-		if ev.isString(ftv.Type) && a.K == c10VStr {
-			return a
-		}
-		return ev.unknownOf(ftv.Type, "conversion to "+ftv.Type.String())
-	}
-	fn := callee(ev.info, call)
-	switch {
-	case isPkgFunc(fn, "fmt", "Sprintf") && len(call.Args) >= 1:
-		f := ev.expr(call.Args[0], env, depth)
-		if f.K != c10VStr {
-			return c10OpaqueVal("Sprintf format is not a constant")
-		}
-		out := c10Val{K: c10VFmt, S: f.S}
-		for _, a := range call.Args[1:] {
-			out.Args = append(out.Args, ev.expr(a, env, depth))
-		}
-		return out
-	case isPkgFunc(fn, "fmt", "Errorf"), isPkgFunc(fn, "errors", "New"):
-		return c10Val{K: c10VErr}
-	}
-	if fd := ev.decls[fn]; fd != nil {
-		var recv *c10Val
-		if sel, ok := ast.Unparen(call.Fun).(*ast.SelectorExpr); ok && fn.Type().(*types.Signature).Recv() != nil {
-			rv := ev.expr(sel.X, env, depth)
-			recv = &rv
-		}
-		var args []c10Val
-		for _, a := range call.Args {
-			args = append(args, ev.expr(a, env, depth))
-		}
-		outs := ev.call(fd, recv, args, depth+1)
-		if len(outs) == 1 && !outs[0].Panic && outs[0].Unsupported == "" {
-			if len(outs[0].Res) == 1 {
-				return outs[0].Res[0]
-			}
-			return c10Val{K: c10VTuple, Args: outs[0].Res}
-		}
-		why := fmt.Sprintf("%s has %d outcomes on this input", funcName(fn), len(outs))
-		for _, o := range outs {
-			if o.Unsupported != "" {
-				why = funcName(fn) + ": " + o.Unsupported
-			} else if o.Panic && len(outs) == 1 {
-				why = funcName(fn) + " panics on this input"
-			}
-		}
-		return ev.unknownOf(tv.Type, why)
-	}
-	name := "call"
-	if fn != nil {
-		name = "call of " + fn.FullName()
-	}
-	return ev.unknownOf(tv.Type, name+" is not interpreted")
-}
-
-// call interprets the body of fd with the given receiver and arguments and returns every way it can end.
-func (ev *c10Eval) call(fd *ast.FuncDecl, recv *c10Val, args []c10Val, depth int) []c10Outcome {
-	if depth > c10MaxDepth {
-		return []c10Outcome{{Unsupported: "inlining depth exceeded", Pos: fd.Pos()}}
-	}
-	ev.Inlined++
-	env := c10Env{}
-	if fd.Recv != nil && len(fd.Recv.List) == 1 && len(fd.Recv.List[0].Names) == 1 && recv != nil {
-		if o := ev.info.Defs[fd.Recv.List[0].Names[0]]; o != nil {
-			env[o] = *recv
-		}
-	}
-	k := 0
-	for _, f := range fd.Type.Params.List {
-		for _, nm := range f.Names {
-			if o := ev.info.Defs[nm]; o != nil && k < len(args) {
-				env[o] = args[k]
-			}
-			k++
-		}
-	}
-	outs, cont := ev.execList(fd.Body.List, c10State{env: env}, depth)
-	for _, st := range cont {
-		if fd.Type.Results == nil || len(fd.Type.Results.List) == 0 {
-			outs = append(outs, c10Outcome{Conds: st.conds, Pos: fd.Body.Rbrace})
-		} else {
-			outs = append(outs, c10Outcome{Unsupported: "control reaches the end of the function (named results are not modelled)", Conds: st.conds, Pos: fd.Body.Rbrace})
-		}
-	}
-	return outs
-}
-
-func (ev *c10Eval) execList(list []ast.Stmt, st c10State, depth int) (outs []c10Outcome, cont []c10State) {
-	states := []c10State{st}
-	for _, s := range list {
-		var next []c10State
-		for _, cur := range states {
-			o, c := ev.execStmt(s, cur, depth)
-			outs = append(outs, o...)
-			next = append(next, c...)
-		}
-		states = next
-		if len(states) == 0 {
-			break
-		}
-		if len(states)+len(outs) > 32 {
-			return append(outs, c10Outcome{Unsupported: "too many paths", Pos: s.Pos()}), nil
-		}
-	}
-	return outs, states
-}
-
-func (ev *c10Eval) isPanic(s ast.Stmt) bool {
-	es, ok := s.(*ast.ExprStmt)
-	if !ok {
-		return false
-	}
-	call, ok := es.X.(*ast.CallExpr)
-	return ok && builtinName(ev.info, call) == "panic"
-}
-
-func (ev *c10Eval) execStmt(s ast.Stmt, st c10State, depth int) ([]c10Outcome, []c10State) {
-	unsupported := func(why string) ([]c10Outcome, []c10State) {
-		return []c10Outcome{{Unsupported: why, Conds: st.conds, Pos: s.Pos()}}, nil
-	}
-	switch x := s.(type) {
-	case *ast.ReturnStmt:
-		if len(x.Results) == 0 {
-			return unsupported("bare return")
-		}
-		out := c10Outcome{Conds: st.conds, Pos: x.Pos()}
-		for _, r := range x.Results {
-			v := ev.expr(r, st.env, depth)
-			if v.K == c10VTuple {
-				out.Res = append(out.Res, v.Args...)
-			} else {
-				out.Res = append(out.Res, v)
-			}
-		}
-		return []c10Outcome{out}, nil
-	case *ast.BlockStmt:
-		return ev.execList(x.List, st, depth)
-	case *ast.ExprStmt:
-		if ev.isPanic(x) {
-			return []c10Outcome{{Panic: true, Conds: st.conds, Pos: x.Pos()}}, nil
-		}
-		return unsupported("expression statement")
-	case *ast.DeclStmt:
-		gd, ok := x.Decl.(*ast.GenDecl)
-		if !ok || gd.Tok != token.VAR {
-			return unsupported("declaration")
-		}
-		env := st.env
-		for _, sp := range gd.Specs {
-			vs := sp.(*ast.ValueSpec)
-			for i, nm := range vs.Names {
-				o := ev.info.Defs[nm]
-				if o == nil {
-					continue
-				}
-				if i < len(vs.Values) && len(vs.Values) == len(vs.Names) {
-					env = env.with(o, ev.expr(vs.Values[i], env, depth))
-				} else if len(vs.Values) == 0 {
-					env = env.with(o, ev.zeroOf(o.Type()))
-				} else {
-					return unsupported("multi-value var declaration")
-				}
-			}
-		}
-		return nil, []c10State{{env: env, conds: st.conds}}
-	case *ast.AssignStmt:
-		if x.Tok != token.DEFINE && x.Tok != token.ASSIGN {
-			return unsupported("compound assignment")
-		}
-		var vals []c10Val
-		if len(x.Rhs) == 1 && len(x.Lhs) > 1 {
-			v := ev.expr(x.Rhs[0], st.env, depth)
-			if v.K != c10VTuple || len(v.Args) != len(x.Lhs) {
-				for range x.Lhs {
-					vals = append(vals, c10OpaqueVal("multi-value right-hand side: "+v.Why))
-				}
-			} else {
-				vals = v.Args
-			}
-		} else if len(x.Rhs) == len(x.Lhs) {
-			for _, r := range x.Rhs {
-				vals = append(vals, ev.expr(r, st.env, depth))
-			}
-		} else {
-			return unsupported("assignment shape")
-		}
-		env := st.env
-		for i, l := range x.Lhs {
-			id, ok := ast.Unparen(l).(*ast.Ident)
-			if !ok {
-				return unsupported("assignment to a non-variable")
-			}
-			if id.Name == "_" {
-				continue
-			}
-			o := ev.info.Defs[id]
-			if o == nil {
-				o = ev.info.Uses[id]
-			}
-			if o == nil {
-				return unsupported("assignment target")
-			}
-			env = env.with(o, vals[i])
-		}
-		return nil, []c10State{{env: env, conds: st.conds}}
-	case *ast.IfStmt:
-		if x.Init != nil {
-			return unsupported("if with init statement")
-		}
-		c := ev.expr(x.Cond, st.env, depth)
-		if c.K != c10VBool {
-			return unsupported("if condition is not a tracked boolean")
-		}
-		var outs []c10Outcome
-		var cont []c10State
-		branch := func(taken bool, s2 c10State) {
-			if taken {
-				o, c2 := ev.execList(x.Body.List, s2, depth)
-				outs, cont = append(outs, o...), append(cont, c2...)
-				return
-			}
-			if x.Else == nil {
-				cont = append(cont, s2)
-				return
-			}
-			o, c2 := ev.execStmt(x.Else, s2, depth)
-			outs, cont = append(outs, o...), append(cont, c2...)
-		}
-		switch c.Tri {
-		case 1:
-			branch(true, st)
-		case 0:
-			branch(false, st)
-		default:
-			for _, taken := range []bool{true, false} {
-				cs := append(append([]c10PathCond{}, st.conds...), c10PathCond{Cond: c, Taken: taken})
-				branch(taken, c10State{env: st.env, conds: cs})
-			}
-		}
-		return outs, cont
-	case *ast.SwitchStmt:
-		if x.Init != nil || x.Tag == nil {
-			return unsupported("switch without tag / with init")
-		}
-		tag := ev.expr(x.Tag, st.env, depth)
-		var deflt *ast.CaseClause
-		for _, cs := range x.Body.List {
-			cc := cs.(*ast.CaseClause)
-			if cc.List == nil {
-				deflt = cc
-				continue
-			}
-			for _, ce := range cc.List {
-				cv := ev.expr(ce, st.env, depth)
-				eq := -1
-				switch {
-				case tag.K == c10VInt && cv.K == c10VInt:
-					eq = c10VecEq(tag.V, cv.V)
-				case tag.K == c10VStr && cv.K == c10VStr:
-					eq = map[bool]int{true: 1, false: 0}[tag.S == cv.S]
-				}
-				if eq == -1 {
-					return unsupported("switch tag " + tag.String() + " cannot be compared with its case values for every input")
-				}
-				if eq == 1 {
-					return ev.execCase(cc, st, depth)
-				}
-			}
-		}
-		if deflt != nil {
-			return ev.execCase(deflt, st, depth)
-		}
-		return nil, []c10State{st}
-	}
-	return unsupported(fmt.Sprintf("statement %T", s))
-}
-
-func (ev *c10Eval) execCase(cc *ast.CaseClause, st c10State, depth int) ([]c10Outcome, []c10State) {
-	for _, s := range cc.Body {
-		if b, ok := s.(*ast.BranchStmt); ok {
-			return []c10Outcome{{Unsupported: "branch statement " + b.Tok.String() + " in switch case", Conds: st.conds, Pos: b.Pos()}}, nil
-		}
-	}
-	return ev.execList(cc.Body, st, depth)
 }
